@@ -149,12 +149,14 @@ def mutate_text(r, text):
 NORMALIZE = (None, 0, 1, 2, 3)  # constructor default, WS_NONE, WS_TAGS, WS_TEXT, WS_BOTH (what the CLI passes without -w)
 
 
-def real_format(actions, normalize=None):
+def real_format(actions, normalize=None, pretty=None):
     """The 'diff' formatter is constructed with every normalize value in turn: the text format does not depend on it."""
     from xmldiff import formatting
 
-    f = formatting.DiffFormatter() if normalize is None else formatting.DiffFormatter(normalize=normalize)
-    return f.format(actions, None)
+    kw = {} if normalize is None else {"normalize": normalize}
+    if pretty is not None:
+        kw["pretty_print"] = pretty
+    return formatting.DiffFormatter(**kw).format(actions, None)
 
 
 ERR = {"ValueError": "valueError", "JSONDecodeError": "valueError", "IndexError": "indexError", "AttributeError": "attributeError", "TypeError": "typeError"}
@@ -234,7 +236,16 @@ def _chunk(seed, lo, hi, extra):
             c["acts"] = acts
             try:
                 c["normalize"] = NORMALIZE[idx % len(NORMALIZE)]
-                text = real_format(acts, c["normalize"])
+                # pretty_print (the -p flag) is accepted by every formatter; the text format does not depend on it
+                c["pretty"] = (None, True, False)[(idx // len(NORMALIZE)) % 3]
+                if mode == "rand" and idx % 4 == 0 and acts:
+                    # a long action line: a deep path and a long text with brackets
+                    from xmldiff import actions as _A
+                    long_text = " ".join(r.choice(["see [1]", "lorem ipsum", "x]", "[", "dolor sit amet", "]"]) for _ in range(r.randint(12, 30)))
+                    acts = list(acts) + [_A.UpdateTextIn("/doc/section[2]/list[3]/item[12]/para[1]/note[2]", long_text),
+                                         _A.InsertComment("/doc/section[2]/list[3]/item[12]/para[1]/note[2]/deep[1]/deeper[2]/deepest[3]", 11, long_text)]
+                    c["acts"] = acts
+                text = real_format(acts, c["normalize"], c["pretty"])
                 c["fmt_exc"] = None
             except Exception as e:  # noqa
                 text = ""
@@ -268,7 +279,7 @@ def _chunk(seed, lo, hi, extra):
         acts, text, ptext = c["acts"], c["text"], c["ptext"]
         m_fmt, m_parse = resp[i], resp[i + 1]
         i += 2
-        desc = {"mode": c["mode"], "idx": c["idx"], "normalize": c.get("normalize"), "actions": xt.show_script(acts)[:12], "text": ptext[:600]}
+        desc = {"mode": c["mode"], "idx": c["idx"], "normalize": c.get("normalize"), "pretty_print": c.get("pretty"), "actions": xt.show_script(acts)[:12], "text": ptext[:600]}
         st.count("formatter_normalize_" + str(c.get("normalize")))
         st.units["U6"] = st.units.get("U6", 0) + 1
         if c["fmt_exc"] is None:
@@ -342,7 +353,7 @@ def _cli_chunk(seed, lo, hi, extra):
                 st.count("cli_keep_whitespace" if keep else "cli_default_whitespace")
                 buf = io.StringIO()
                 with contextlib.redirect_stdout(buf):
-                    main.diff_command([lf, rf, "-w"] if keep else [lf, rf])
+                    main.diff_command(([lf, rf, "-w"] if keep else [lf, rf]) + (["-p"] if idx % 3 == 0 else []))
                 text = buf.getvalue()
                 assert text.endswith("\n")
                 open(df, "w", encoding="utf-8").write(text[:-1])
